@@ -419,10 +419,11 @@ Definition step (s : state) (o : op) : state * option err :=
 Definition run (s : state) (ops : list op) : state := fold_left (fun st o => fst (step st o)) ops s.
 
 (* ---- the discipline the invariants need:
-   (1) objects enter the tree fresh and under their own name (ONew, never OAlloc), or they are aliases that are
-       inserted AGAIN after they were deleted or replaced (OSet), under their own name, provided nothing of them is left
-       behind: no container lists them, no aliases dictionary mentions them (their back-reference was overwritten, or
-       they were never resolved);
+   (1) objects enter the tree fresh and under their own name (ONew, never OAlloc), or they are aliases -- or objects
+       without members (a function, an attribute, an emptied class) -- that are inserted AGAIN after they were deleted
+       or replaced (OSet), under their own name, provided nothing of them is left behind: no container lists them, no
+       aliases dictionary mentions them (their back-reference was overwritten, or they were never resolved), no alias
+       points at them, no former member still names them as parent;
    (2) the collection holds no alias directly;
    (3) every object an operation is applied to (receiver, alias operand) is in the tree at that moment,
        i.e. it is what the collection returns for the object's own path. *)
@@ -449,7 +450,8 @@ Definition reattach_ok (s : state) (r : recv) (p : path) (v : nat) : bool :=
   match getn s v, r, p with
   | None, _, _ => false
   | _, RRoot, [_] => false
-  | Some vn, _, _ => is_ali (nkind vn) && (match nmembers vn with [] => true | _ :: _ => false end) && loose s v &&
+  | Some vn, _, _ => (is_ali (nkind vn) || match ntarget vn with None => true | Some _ => false end) &&
+                     (match nmembers vn with [] => true | _ :: _ => false end) && loose s v &&
                      String.eqb (last p "") (nname vn) && recv_live s r
   end.
 
